@@ -42,11 +42,46 @@ func ValueOf(query *Query, current Map, any any) (any, error) {
 			}
 			return *value, nil
 		}
+	case []interface{}:
+		{
+			// the members of a value tuple still carry the wrappers of literals and of
+			// computed numbers
+			return Unwrapped(value), nil
+		}
 	default:
 		{
 			return value, nil
 		}
 	}
+}
+
+// Unwrapped returns the slice itself when no member is a literal or number wrapper,
+// otherwise a copy whose members are plain values
+func Unwrapped(slice []any) []any {
+	wrapped := false
+	for _, item := range slice {
+		switch item.(type) {
+		case NeutalString, *float64:
+			wrapped = true
+		}
+	}
+	if !wrapped {
+		return slice
+	}
+	out := make([]any, len(slice))
+	for i, item := range slice {
+		switch item := item.(type) {
+		case NeutalString:
+			out[i] = string(item)
+		case *float64:
+			if item != nil {
+				out[i] = *item
+			}
+		default:
+			out[i] = item
+		}
+	}
+	return out
 }
 
 func AsType[T any](value any) (*T, error) {
